@@ -427,6 +427,41 @@ struct InvAll
 using InvModels = mp::mp_list<uint8_t, int8_t, uint16_t, int16_t, uint32_t, int32_t,
     PV<1>, PV<2>, PV<3>, PV<4>, PV<5>, PV<6>, PV<7>, PV<8>, PV<9>, PV<10>, PV<11>, PV<12>, PV<13>, PV<14>, PV<15>, PV<16>>;
 
+// scoped channels whose minimum is not zero: channel_invert(x) == max - x + min exactly, inside [min, max], involution.
+// double in [-0.5, 0.5] on the dyadic grid k/4096 - 0.5 (max - x + min = -x, exact in double); uint8_t in [16, 235], every value.
+struct ScMinusHalf { static double apply() { return -0.5; } };
+struct ScPlusHalf { static double apply() { return 0.5; } };
+struct Sc16 { static uint8_t apply() { return 16; } };
+struct Sc235 { static uint8_t apply() { return 235; } };
+VH_GROUP(invscoped)
+{
+    if (!ctx.take()) return;
+    using D = gil::scoped_channel_value<double, ScMinusHalf, ScPlusHalf>;
+    using U = gil::scoped_channel_value<uint8_t, Sc16, Sc235>;
+    long fails = 0;
+    for (int k = 0; k <= 4096; ++k)
+    {
+        const double x = double(k) / 4096 - 0.5;
+        const double r = double(gil::channel_invert(D(x))), back = double(gil::channel_invert(D(r)));
+        ++ctx.evaluations; if (k != 0 && k != 4096 && k != 2048) ++ctx.nontrivial;
+        const std::string id = vh::S() << "scoped<double,-0.5,0.5>/x=" << x;
+        if (!(r >= -0.5 && r <= 0.5) && ++fails <= 64) ctx.fail(id, "out-of-range", vh::S() << "result=" << r);
+        if (r != -x && ++fails <= 64) ctx.fail(id, "not-max-minus-x-plus-min", vh::S() << "result=" << r << " expected=" << -x);
+        if (back != x && ++fails <= 64) ctx.fail(id, "not-involution", vh::S() << "invert(result)=" << back);
+    }
+    for (int v = 16; v <= 235; ++v)
+    {
+        const int r = int(uint8_t(gil::channel_invert(U(uint8_t(v))))), back = int(uint8_t(gil::channel_invert(U(uint8_t(r)))));
+        ++ctx.evaluations; if (v != 16 && v != 235) ++ctx.nontrivial;
+        const std::string id = vh::S() << "scoped<uint8,16,235>/x=" << v;
+        if (!(r >= 16 && r <= 235) && ++fails <= 64) ctx.fail(id, "out-of-range", vh::S() << "result=" << r);
+        if (r != 235 - v + 16 && ++fails <= 64) ctx.fail(id, "not-max-minus-x-plus-min", vh::S() << "result=" << r << " expected=" << 235 - v + 16);
+        if (back != v && ++fails <= 64) ctx.fail(id, "not-involution", vh::S() << "invert(result)=" << back);
+    }
+    ++ctx.witness["inv_scoped_nonzero_min_models"];
+    ctx.sample(vh::S() << "invert scoped<double,-0.5,0.5>: 0.25 -> " << double(gil::channel_invert(D(0.25))) << "; scoped<uint8,16,235>: 20 -> " << int(uint8_t(gil::channel_invert(U(uint8_t(20))))));
+}
+
 // every x of every model of <= 16 bits and every packed width
 VH_GROUP(inv) { mp::mp_for_each<mp::mp_transform<mp::mp_identity, InvModels>>(InvAll{ctx, false, 0}); }
 // uint32 / int32 / float32: full32=0 complete strata, full32=1 every bit pattern (floats: every pattern in [0,1])
